@@ -2,6 +2,17 @@
 // handles.rs (Counter/Gauge/Histogram, clones, noop, From<Arc<T>>, impl XFn for Arc<T>, default
 // record_many), common.rs (IntoF64, GaugeValue::update_value).
 //
+// Process structure: the binary started by the check is a SUPERVISOR; it runs the cases in a child
+// process (`c04 --worker`) and watches it.  A call of the real code that does not return is reported
+// as the outcome `H` (hang) for that call, the child is killed and a fresh one serves the next case.
+// "Does not return" = the child has burnt HANG_CPU of CPU time since the call was handed over without
+// answering (a call needs microseconds of CPU; CPU time, unlike wall time, does not grow while the
+// machine is merely overloaded), or 300 s of wall time as a backstop.  HANG_CPU is 1 s for the first
+// three hangs of a run and 0.05 s afterwards (override: C04_HANG_CPU_MS).  The stress / rounds modes
+// have their own watchdog in the worker: no progress of ANY thread for STALL = 10 s of wall time
+// (3 s once a hang has been reported in this run; override C04_STALL_MS) -> the line reports
+// `hang=<unfinished threads>` / `hang_round=<r>` and the worker exits.
+//
 // stdin, one case per line:
 //   Q <init> | <op> <op> ...      sequential calls on ONE Arc<AtomicU64> and two logging doubles
 //       C<route><i|a>:<v>             counter increment / absolute
@@ -13,6 +24,7 @@
 //            f handle via From<Arc<T>>, x from_arc(Arc::new(arc)), n noop handle
 //     arg:   f<bits> f64 | b<z> i8 | B<z> u8 | w<z> i16 | W<z> u16 | l<z> i32 | L<z> u32
 //     output tokens: c<bits> | v<bits> | h<runs> (runs: r<bits>*k or m<bits>/<n>*k, ',' separated, '-' = none) | P
+//                    | H (the call did not return; nothing is printed for the calls after it)
 //   F <ty> <raw...>                IntoF64 conversions: ty in i8 u8 i16 u16 i32 u32 f32 f64 dur
 //     output: <bits into_f64> <bits after Gauge::set(x)> <bits the histogram double received>
 //   S <kind> <init> | <route>:<reps>:<op>,<op>,... ; ...     free-running threads on shared clones
@@ -159,7 +171,7 @@ fn rle(evs: &[Ev]) -> String {
     format!("h{}", toks.join(","))
 }
 
-fn run_seq(line: &str) -> String {
+fn run_seq(line: &str, emit: &mut dyn FnMut(&str)) {
     let (head, ops) = line.split_once('|').unwrap();
     let init: u64 = head.trim().parse().unwrap();
     let cell = Arc::new(AtomicU64::new(init));
@@ -169,7 +181,6 @@ fn run_seq(line: &str) -> String {
     let d2 = Arc::new(D2::default());
     let h1 = hists(&d1);
     let h2 = hists(&d2);
-    let mut out: Vec<String> = Vec::new();
     for tok in ops.split_whitespace() {
         let (k, rest) = tok.split_at(1);
         let r = catch_unwind(AssertUnwindSafe(|| -> String {
@@ -208,9 +219,8 @@ fn run_seq(line: &str) -> String {
                 _ => panic!("bad op {}", tok),
             }
         }));
-        out.push(match r { Ok(s) => s, Err(_) => "P".into() });
+        emit(&match r { Ok(s) => s, Err(_) => "P".into() });
     }
-    if out.is_empty() { "-".into() } else { out.join(" ") }
 }
 
 fn conv_out<T: IntoF64 + Copy>(v: T) -> String {
@@ -267,7 +277,10 @@ fn run_stress(line: &str) -> String {
     let gh = Gauge::from_arc(cell.clone());
     let hh = Histogram::from_arc(dc.clone());
     let mut joins = Vec::new();
+    let mut progress: Vec<Arc<StdU64>> = Vec::new();      // per thread: completed repetitions; u64::MAX = finished
     for spec in specs {
+        let prog = Arc::new(StdU64::new(0));
+        progress.push(prog.clone());
         let mut p = spec.splitn(3, ':');
         let route = p.next().unwrap().to_string();
         let reps: u64 = p.next().unwrap().parse().unwrap();
@@ -290,7 +303,8 @@ fn run_stress(line: &str) -> String {
         joins.push(std::thread::spawn(move || {
             barrier.wait();
             let r = catch_unwind(AssertUnwindSafe(|| {
-                for _ in 0..reps {
+                for rep in 0..reps {
+                    prog.store(rep, SeqCst);
                     for &(k, v, n) in &ops {
                         match (kind.as_str(), route.as_str(), k) {
                             ("c", "t", 'i') => CounterFn::increment(&*cell, v),
@@ -317,6 +331,7 @@ fn run_stress(line: &str) -> String {
                 }
             }));
             if r.is_err() { panics.fetch_add(1, SeqCst); }
+            prog.store(u64::MAX, SeqCst);
         }));
     }
     // observer: samples the cell while the workers run (monotonicity is judged by the caller)
@@ -331,11 +346,37 @@ fn run_stress(line: &str) -> String {
             }
             (n, bad)
         }) };
+    // watchdog: some call does not return if no thread makes progress for STALL although not all have finished
+    let stuck = wait_progress(&|| progress.iter().map(|p| p.load(SeqCst)).collect(), &|v| v.iter().all(|&x| x == u64::MAX));
+    if let Some(last) = stuck {
+        let unfinished = last.iter().filter(|&&x| x != u64::MAX).count();
+        println!("x final={} panics={} samples=0 nonmonotone=0 delivered={} badvalue={} hang={}",
+                 cell.load(SeqCst), panics.load(SeqCst), dc.delivered.load(SeqCst), dc.bad.load(SeqCst), unfinished);
+        std::io::stdout().flush().unwrap();
+        std::process::exit(0);          // the stuck threads cannot be joined; the supervisor starts a fresh worker
+    }
     for j in joins { let _ = j.join(); }
     stop.store(true, SeqCst);
     let (samples, nonmono) = obs.join().unwrap();
-    format!("final={} panics={} samples={} nonmonotone={} delivered={} badvalue={}",
+    format!("final={} panics={} samples={} nonmonotone={} delivered={} badvalue={} hang=0",
             cell.load(SeqCst), panics.load(SeqCst), samples, nonmono, dc.delivered.load(SeqCst), dc.bad.load(SeqCst))
+}
+
+fn stall_limit() -> Duration {
+    Duration::from_millis(std::env::var("C04_STALL_MS").ok().and_then(|s| s.parse().ok()).unwrap_or(10000))
+}
+
+// poll `snap` until `done(snapshot)`; None = done, Some(last snapshot) = no change for STALL
+fn wait_progress(snap: &dyn Fn() -> Vec<u64>, done: &dyn Fn(&[u64]) -> bool) -> Option<Vec<u64>> {
+    let mut last = snap();
+    let mut since = std::time::Instant::now();
+    loop {
+        if done(&last) { return None; }
+        std::thread::sleep(Duration::from_millis(2));
+        let now = snap();
+        if now != last { last = now; since = std::time::Instant::now(); }
+        else if since.elapsed() > stall_limit() { return Some(last); }
+    }
 }
 
 // monotonic spin barrier (yields when the machine is oversubscribed)
@@ -377,7 +418,10 @@ fn run_rounds(line: &str) -> String {
             (n, bad)
         }) };
     let mut joins = Vec::new();
+    let round_done = Arc::new(StdU64::new(0));
+    let finished = Arc::new(StdU64::new(0));
     for idx in 0..nt {
+        let (round_done, finished) = (round_done.clone(), finished.clone());
         // handles obtained in different ways, all on the one storage
         let c: Counter = match idx % 4 { 0 => ch.clone(), 1 => Counter::from_arc(cell.clone()), 2 => cell.clone().into(), _ => Counter::from_arc(Arc::new(cell.clone())) };
         let g: Gauge = match idx % 4 { 0 => gh.clone(), 1 => Gauge::from_arc(cell.clone()), 2 => cell.clone().into(), _ => Gauge::from_arc(Arc::new(cell.clone())) };
@@ -411,34 +455,142 @@ fn run_rounds(line: &str) -> String {
                     let v = cell.load(SeqCst);
                     ends.lock().unwrap().push(v);
                     cur.store(v, SeqCst);
+                    round_done.store(r, SeqCst);
                 }
                 sync(&arrived, &mut phase, nt);
             }
+            finished.fetch_add(1, SeqCst);
         }));
+    }
+    let stuck = wait_progress(&|| vec![round_done.load(SeqCst), finished.load(SeqCst)], &|v| v[1] == nt as u64);
+    if let Some(last) = stuck {
+        let ends: Vec<String> = ends.lock().unwrap().iter().map(|v| v.to_string()).collect();
+        println!("x panics={} samples=0 nonmonotone=0 hang_round={} ends={}", panics.load(SeqCst), last[0] + 1, ends.join(","));
+        std::io::stdout().flush().unwrap();
+        std::process::exit(0);
     }
     for j in joins { let _ = j.join(); }
     stop.store(true, SeqCst);
     let (samples, nonmono) = obs.join().unwrap();
     let ends: Vec<String> = ends.lock().unwrap().iter().map(|v| v.to_string()).collect();
-    format!("panics={} samples={} nonmonotone={} ends={}", panics.load(SeqCst), samples, nonmono, ends.join(","))
+    format!("panics={} samples={} nonmonotone={} hang_round=0 ends={}", panics.load(SeqCst), samples, nonmono, ends.join(","))
 }
 
-fn main() {
+// ------------------------------------------------------------------ worker process
+// messages to the supervisor: `t <token>` one per call of a Q case, `e` end of the Q case, `l <line>` whole answer,
+// `x <line>` whole answer of a stress run in which a thread is stuck (the worker exits after it)
+fn worker_main() {
     std::panic::set_hook(Box::new(|_| {}));
     let stdin = std::io::stdin();
-    let stdout = std::io::stdout();
-    let mut w = std::io::BufWriter::new(stdout.lock());
     for line in stdin.lock().lines() {
         let line = line.unwrap();
         if line.trim().is_empty() { continue; }
         let (mode, rest) = line.split_at(1);
-        let out = match mode {
-            "Q" => run_seq(rest),
-            "F" => run_conv(rest),
-            "S" => run_stress(rest),
-            "R" => run_rounds(rest),
+        match mode {
+            "Q" => {
+                run_seq(rest, &mut |t| { println!("t {}", t); std::io::stdout().flush().unwrap(); });
+                println!("e");
+            }
+            "F" => println!("l {}", run_conv(rest)),
+            "S" => println!("l {}", run_stress(rest)),
+            "R" => println!("l {}", run_rounds(rest)),
             _ => panic!("bad line"),
-        };
-        writeln!(w, "{}", out).unwrap();
+        }
+        std::io::stdout().flush().unwrap();
     }
+}
+
+// ------------------------------------------------------------------ supervisor
+struct Worker { proc: std::process::Child, stdin: std::process::ChildStdin, rx: std::sync::mpsc::Receiver<String> }
+
+fn spawn_worker(after_hang: bool) -> Worker {
+    let mut cmd = std::process::Command::new(std::env::current_exe().unwrap());
+    if after_hang && std::env::var("C04_STALL_MS").is_err() { cmd.env("C04_STALL_MS", "3000"); }
+    let mut proc = cmd.arg("--worker")
+        .stdin(std::process::Stdio::piped()).stdout(std::process::Stdio::piped()).spawn().unwrap();
+    let stdin = proc.stdin.take().unwrap();
+    let stdout = proc.stdout.take().unwrap();
+    let (tx, rx) = std::sync::mpsc::channel();
+    std::thread::spawn(move || {
+        for l in std::io::BufReader::new(stdout).lines() {
+            match l { Ok(l) => { if tx.send(l).is_err() { break; } } Err(_) => break }
+        }
+    });
+    Worker { proc, stdin, rx }
+}
+
+// CPU time (user + system) of a process in clock ticks (USER_HZ = 100 per second)
+fn cpu_ticks(pid: u32) -> u64 {
+    let st = std::fs::read_to_string(format!("/proc/{}/stat", pid)).unwrap_or_default();
+    let after = match st.rfind(')') { Some(i) => &st[i + 1..], None => return 0 };
+    let f: Vec<&str> = after.split_whitespace().collect();        // f[0] = state (field 3); utime = field 14, stime = 15
+    f.get(11).and_then(|x| x.parse::<u64>().ok()).unwrap_or(0) + f.get(12).and_then(|x| x.parse::<u64>().ok()).unwrap_or(0)
+}
+
+enum Msg { Line(String), Hang, Died }
+
+// wait for the worker's next message; cpu_limit = None: only the wall-clock backstop applies
+fn next_msg(w: &Worker, cpu_limit: Option<u64>, wall: Duration) -> Msg {
+    let pid = w.proc.id();
+    let c0 = cpu_ticks(pid);
+    let t0 = std::time::Instant::now();
+    loop {
+        match w.rx.recv_timeout(Duration::from_millis(10)) {
+            Ok(l) => return Msg::Line(l),
+            Err(std::sync::mpsc::RecvTimeoutError::Disconnected) => return Msg::Died,
+            Err(std::sync::mpsc::RecvTimeoutError::Timeout) => {
+                if let Some(lim) = cpu_limit { if cpu_ticks(pid).saturating_sub(c0) >= lim { return Msg::Hang; } }
+                if t0.elapsed() > wall { return Msg::Hang; }
+            }
+        }
+    }
+}
+
+fn supervisor_main() {
+    let stdin = std::io::stdin();
+    let stdout = std::io::stdout();
+    let mut out = std::io::BufWriter::new(stdout.lock());
+    let fixed: Option<u64> = std::env::var("C04_HANG_CPU_MS").ok().and_then(|s| s.parse::<u64>().ok()).map(|ms| (ms / 10).max(1));
+    let mut hangs = 0u32;
+    let mut worker: Option<Worker> = None;
+    let retire = |w: &mut Option<Worker>| { if let Some(mut x) = w.take() { let _ = x.proc.kill(); let _ = x.proc.wait(); } };
+    for line in stdin.lock().lines() {
+        let line = line.unwrap();
+        if line.trim().is_empty() { continue; }
+        if worker.is_none() { worker = Some(spawn_worker(hangs > 0)); }
+        let sent = { let w = worker.as_mut().unwrap(); writeln!(w.stdin, "{}", line).and_then(|_| w.stdin.flush()).is_ok() };
+        if !sent {                                  // the previous worker exited after reporting a stuck stress run
+            retire(&mut worker);
+            worker = Some(spawn_worker(hangs > 0));
+            let w = worker.as_mut().unwrap();
+            writeln!(w.stdin, "{}", line).unwrap(); w.stdin.flush().unwrap();
+        }
+        let cpu_limit = fixed.unwrap_or(if hangs < 3 { 100 } else { 5 });
+        let mode = &line[..1];
+        let answer = if mode == "Q" {
+            let mut toks: Vec<String> = Vec::new();
+            loop {
+                match next_msg(worker.as_ref().unwrap(), Some(cpu_limit), Duration::from_secs(300)) {
+                    Msg::Line(l) => { if l == "e" { break; } toks.push(l[2..].to_string()); }
+                    Msg::Hang => { toks.push("H".into()); hangs += 1; retire(&mut worker); break; }
+                    Msg::Died => { toks.push("P".into()); retire(&mut worker); break; }      // the process died in the call (abort)
+                }
+            }
+            if toks.is_empty() { "-".to_string() } else { toks.join(" ") }
+        } else {
+            let (cpu, wall) = if mode == "F" { (Some(cpu_limit), 300) } else { (None, 900) };
+            match next_msg(worker.as_ref().unwrap(), cpu, Duration::from_secs(wall)) {
+                Msg::Line(l) => { if l.starts_with("x ") { hangs += 1; retire(&mut worker); } l[2..].to_string() }   // `x`: answered and exiting
+                Msg::Hang => { hangs += 1; retire(&mut worker); "hang=1 hang_round=1 H".to_string() }
+                Msg::Died => { retire(&mut worker); "died=1 P".to_string() }
+            }
+        };
+        writeln!(out, "{}", answer).unwrap();
+    }
+    out.flush().unwrap();
+    retire(&mut worker);
+}
+
+fn main() {
+    if std::env::args().nth(1).as_deref() == Some("--worker") { worker_main() } else { supervisor_main() }
 }
